@@ -1,6 +1,7 @@
 package aggregator
 
 import (
+	"encoding/hex"
 	"fmt"
 	"regexp"
 	"strconv"
@@ -230,11 +231,8 @@ func findFunctionCalls(expr string) [][]int {
 
 // generatePlaceholder 为函数调用生成唯一占位符
 func generatePlaceholder(funcName, fullFuncCall string) string {
-	callHash := uint32(0)
-	for i := 0; i < len(fullFuncCall); i++ {
-		callHash = callHash*HashMultiplier + uint32(fullFuncCall[i])
-	}
-	return PlaceholderPrefix + funcName + "_" + strconv.FormatUint(uint64(callHash), 10) + PlaceholderSuffix
+	// The hex form of the call text: distinct calls never share a placeholder
+	return PlaceholderPrefix + funcName + "_" + hex.EncodeToString([]byte(fullFuncCall)) + PlaceholderSuffix
 }
 
 // parseNestedFunctionsWithDepth 递归解析嵌套函数调用，支持深度控制
